@@ -65,7 +65,12 @@ def lists_quadratic(rng, quick):
     fixed = [{"d": -1, "bases": [quad(0, 1, 1, -1)]}, {"d": -1, "bases": [quad(1, 1, 1, -1), quad(1, -1, 1, -1), quad(2, 0, 1, -1)]},
              {"d": 5, "bases": [quad(1, 1, 2, 5), quad(1, -1, 2, 5)]}, {"d": 2, "bases": [quad(1, 1, 1, 2), quad(1, -1, 1, 2)]},
              {"d": 2, "bases": [quad(0, 1, 1, 2), quad(2, 0, 1, 2)]}, {"d": -1, "bases": [quad(3, 4, 5, -1), quad(3, -4, 5, -1)]},
-             {"d": -1, "bases": [quad(0, 1, 1, -1), quad(-1, 0, 1, -1)]}, {"d": 5, "bases": [quad(1, 1, 2, 5), quad(3, 1, 2, 5)]}]
+             {"d": -1, "bases": [quad(0, 1, 1, -1), quad(-1, 0, 1, -1)]}, {"d": 5, "bases": [quad(1, 1, 2, 5), quad(3, 1, 2, 5)]},
+             # non-integral bases of modulus slightly above 1 (small heights)
+             {"d": -1, "bases": [quad(20, 1, 20, -1), quad(20, -1, 20, -1), quad(401, 0, 400, -1)]},
+             {"d": -1, "bases": [quad(10, 1, 10, -1), quad(10, -1, 10, -1), quad(101, 0, 100, -1)]},
+             {"d": 10010, "bases": [quad(1001, 0, 1000, 10010), quad(0, 1, 100, 10010)]},
+             {"d": 2, "bases": [quad(3, 0, 2, 2), quad(0, 3, 2 * 1, 2), quad(9, 0, 2, 2)]}]
     return fixed + out[:(40 if quick else 600)]
 
 
